@@ -2,9 +2,11 @@
     A tiny store of label arrays (location -> array); a population holds the LOCATION of its taxa array (or none: the labels are
     generated).  Mirrors
       G_E_Phenotyping.phenotype : taxa_vt = numpy.concatenate(taxa_ls)                       -- always a fresh array
-      TruePhenotyping.phenotype : labels_dict["taxa"] = [generated ...] if gvmat.taxa is None else gvmat.taxa ;
-                                  pandas.DataFrame(labels_dict) ; pandas.concat([...], axis=1)  -- the object array is kept as it is
-    (pandas 3 keeps the population's own object array as the column's buffer; a write into the table goes through).
+      TruePhenotyping.phenotype : labels_dict["taxa"] = [generated ...] if gvmat.taxa is None else numpy.array(gvmat.taxa) ;
+                                  pandas.DataFrame(labels_dict) ; pandas.concat([...], axis=1)  -- a fresh array in both branches
+    (pandas 3 keeps an object array it is handed as the column's buffer, so a write into the table reaches that array: since the
+    repair of C14-truepheno-table-shares-labels the array handed over is a copy; the FORMER code handed over gvmat.taxa itself,
+    which is the population's own array -- kept below as [old_tp_taxa_column], a regression witness).
     Definitions only. *)
 From Coq Require Import String.
 From PV Require Import Lib.Common Model.C14_Pheno.
@@ -19,11 +21,21 @@ Definition halloc (h : heap) (a : list str) : heap * nat := (h ++ [a], length h)
 
 (** the taxa column of the table: (store after the call, location of the column's buffer) *)
 Definition tp_taxa_column (h : heap) (n : nat) (taxa : option nat) : heap * nat :=
+  halloc h (match taxa with Some l => hread h l | None => auto_labels "Taxon"%string n end).
+(** the FORMER code (before the repair): explicit labels were handed to pandas as they are *)
+Definition old_tp_taxa_column (h : heap) (n : nat) (taxa : option nat) : heap * nat :=
   match taxa with Some l => (h, l) | None => halloc h (auto_labels "Taxon"%string n) end.
 Definition ge_taxa_column (h : heap) (n : nat) (taxa : option nat) (nblocks : nat) : heap * nat :=
   halloc h (concat (repeat (match taxa with Some l => hread h l | None => auto_labels "Taxon"%string n end) nblocks)).
 
-(** observable of the aliasing probe: does a write into the TruePhenotyping table reach the population? *)
-(** only the object array of taxa labels is kept by pandas; the integer group labels are copied into the frame's own block *)
-Definition tp_table_shares (taxa : option (list str)) (grp : option (list Z)) : bool :=
-  match taxa with Some _ => true | None => false end.
+(** observable of the aliasing probe (the harness overwrites cell 0 of the taxa column of the returned table and compares the
+    population's labels with their snapshot): the population's taxa array, when there is one, is location 0 of a one-array store (no array: an empty store); every array that
+    existed before the call must read as before;
+    [column] is the function that builds the taxa column.  (The integer group labels are copied by pandas into the frame's own
+    block in either version of the code: not part of the store.) *)
+Definition probe_isolated (column : heap -> nat -> option nat -> heap * nat) (n : nat) (taxa : option (list str)) : bool :=
+  let h := match taxa with Some a => [a] | None => [] end in
+  let '(h', c) := column h n (match taxa with Some _ => Some 0%nat | None => None end) in
+  forallb (fun l => sl_eqb (hread (hwrite h' c 0 "__mut__"%string) l) (hread h l)) (seq 0 (length h)).
+Definition tp_table_isolated (n : nat) (taxa : option (list str)) : bool := probe_isolated tp_taxa_column n taxa.
+Definition old_tp_table_isolated (n : nat) (taxa : option (list str)) : bool := probe_isolated old_tp_taxa_column n taxa.
